@@ -537,8 +537,8 @@ func supervisorMain() int {
 		trouble = true
 	}
 	writeEvidence(cfg, p, agg, wall, len(unknown), knownKeys)
-	fmt.Printf("runs=%d nontrivial=%d distinct_shapes=%d distinct_interleavings=%d simulated=%.0fs wall=%.1fs violations=%d known=%d\n",
-		agg.Runs, agg.NonTrivial, len(agg.Shapes), len(agg.Scheds), agg.VirtualS, wall, len(unknown), len(knownKeys))
+	fmt.Printf("runs=%d nontrivial=%d distinct_shapes=%d distinct_interleavings=%d simulated=%.0fs wall=%.1fs violations=%d known=%d violating_runs=%d\n",
+		agg.Runs, agg.NonTrivial, len(agg.Shapes), len(agg.Scheds), agg.VirtualS, wall, len(unknown), len(knownKeys), agg.Stats["violating-runs"])
 	sort.Slice(unknown, func(i, j int) bool { return unknown[i].Index < unknown[j].Index })
 	for _, v := range unknown {
 		fmt.Printf("violation rule=%s index=%d facts=%v\n  %s\n", v.Rule, v.Index, v.Facts, v.Detail)
